@@ -7,6 +7,9 @@
 //                                     sensitive magnitudes, near-overflow values, one infinity.
 //   coll async <seed> <rounds> [nfn] -> "free-function reductions complete outstanding asyncs": chains of asyncs are issued and a
 //                                     free function is called WITHOUT a barrier; prints `a <round> <fn> <handlers run here> <expected>`
+//   coll asyncval <seed> <rounds> [nfn] -> the idiom `ygm::sum(counter, world)`: chains of asyncs whose handlers UPDATE a per-rank variable
+//                                     are issued, then a free function is called ON THAT VARIABLE without a barrier; prints
+//                                     `v <round> <fn> <var at call> <flag at call> <result> <var after return> <expected final var>`
 //   coll prims                     -> brackets one call of every collective with `enter <c>` / `exit <c>` events on the wire log
 // The blocking members (comm::all_reduce*, ygm::bcast) are only called right after a barrier() (see DESIGN.md D7).
 #include "hcommon.hpp"
@@ -275,6 +278,53 @@ static void asyncs(ygm::comm& w, uint64_t seed, int rounds, int nfn) {
   }
 }
 
+// ------------------------------------------------------------------ reductions over a variable that outstanding asyncs still update
+static long g_var = 0; static bool g_flag = false;
+static long delta_of(uint64_t h) { long d = (long)(mix(h ^ 0x7f4a7c15ULL) % 101) - 50; return d == 0 ? 1 : d; }
+struct upd_fn {
+  template <typename Comm> void operator()(Comm* c, uint64_t h, int32_t ttl) {
+    g_var += delta_of(h); g_flag = (delta_of(h) & 1) != 0;
+    if (ttl > 0) { uint64_t nh = mix(h ^ 0x5bd1e995ULL); c->async(chain_dest(nh), upd_fn(), nh, ttl - 1); }
+  }
+};
+static void asyncval(ygm::comm& w, uint64_t seed, int rounds, int nfn) {
+  static const char* fns[] = {"sum", "min", "max", "prefix_sum", "logical_and", "logical_or", "is_same"};
+  for (int round = 0; round < rounds; ++round) {
+    hc::rng g(mix(seed * 104729ULL + (uint64_t)round) ^ ((uint64_t)g_size << 36));
+    int fn = (round + (int)(seed % (uint64_t)nfn)) % nfn;
+    // initial values of the variable (is_same: equal everywhere, so that it is true AT THE CALL unless a handler already ran)
+    std::vector<long> fin(g_size);
+    for (int r = 0; r < g_size; ++r) fin[r] = (fn == 6) ? 7 : (long)(g.next() % 100);
+    w.barrier();                       // previous round is quiescent: safe to reset
+    g_var = fin[g_rank]; g_flag = (g.s >> (g_rank % 60)) & 1;
+    w.barrier();                       // nobody issues before everybody has reset
+    for (int origin = 0; origin < g_size; ++origin) {
+      int k = 1 + (int)g.below(4);
+      for (int j = 0; j < k; ++j) {
+        uint64_t h = g.next(); int ttl = (int)g.below(4);
+        if (origin == g_rank) w.async(chain_dest(h), upd_fn(), h, (int32_t)ttl);
+        uint64_t hh = h;
+        for (int t = ttl; t >= 0; --t) { fin[chain_dest(hh)] += delta_of(hh); hh = mix(hh ^ 0x5bd1e995ULL); }
+      }
+    }
+    const long at = g_var; const bool atf = g_flag;     // what the variables hold at the call (handlers may already have run)
+    long res = 0;
+    switch (fn) {   // the variable itself is passed; NO barrier here
+      case 0: res = ygm::sum(g_var, w); break;
+      case 1: res = ygm::min(g_var, w); break;
+      case 2: res = ygm::max(g_var, w); break;
+      case 3: res = ygm::prefix_sum(g_var, w); break;
+      case 4: res = ygm::logical_and(g_flag, w); break;
+      case 5: res = ygm::logical_or(g_flag, w); break;
+      case 6: res = ygm::is_same(g_var, w); break;
+    }
+    long after = g_var;
+    hc::out("v " + std::to_string(round) + " " + fns[fn] + " " + std::to_string(at) + " " + (atf ? "1" : "0") + " " + std::to_string(res) + " " +
+            std::to_string(after) + " " + std::to_string(fin[g_rank]));
+  }
+  w.barrier();
+}
+
 // ------------------------------------------------------------------ program structure on the wire log
 static void prims(ygm::comm& w) {
   long v = g_rank + 1; bool b = true; std::string s = "r" + std::to_string(g_rank);
@@ -322,6 +372,7 @@ extern "C" int sim_main(int argc, char** argv) {
     type_line<size_t>("size_t");
   } else if (mode == "vals") vals(world, seed, rounds);
   else if (mode == "async") asyncs(world, seed, rounds, argc > 4 ? atoi(argv[4]) : 7);
+  else if (mode == "asyncval") asyncval(world, seed, rounds, argc > 4 ? atoi(argv[4]) : 7);
   else if (mode == "prims") prims(world);
   hc::out("done");
   return 0;
